@@ -151,7 +151,6 @@ struct Run{
         if(live->scal_ptr(ix)!=base+ix*stride+nrhos*nsun*nsun){ c.violation("C04","views:layout",std::string(when)+":scalar","scalar views do not follow the layout"); return; }
       }
     }
-    if(have_y && g_last_apply_y && base!=g_last_apply_y){ c.violation("C04","views:layout",when,"the stored state is not the array the ODE driver integrated"); return; }
     long bid; int ub; size_t off;
     if(alloc_classify(base,(size_t)stride*nx*sizeof(double),&bid,&ub,&off)!=RANGE_LIB_BLOCK){ c.violation("C15","views:storage",when,"the stored state does not lie in a live block"); return; }
   }
